@@ -59,7 +59,7 @@ func genPtSels(r *rand.Rand, depth int) []*ptField {
 		case 1:
 			f.Alias = ptNames[r.Intn(len(ptNames))] + "_" + fmt.Sprint(r.Intn(3))
 		}
-		if depth > 0 && r.Intn(4) > 0 {
+		if depth > 0 && r.Intn(4) > 0 && ptKey(f) != "id" {
 			f.List = r.Intn(5) < 3
 			f.Sub = genPtSels(r, depth-1)
 		}
